@@ -190,6 +190,7 @@ def run(ctx):
     ctx.rule("R05.g", "a self-resetting Event is reset even when a watcher raises during the assignment: in Event.__set__ the reset is passed on the exceptional exit of super().__set__", floor=1)
     ctx.rule("R05.h", "a failing flush leaves no events behind: every exceptional exit of the flush passes a reset of both queues", floor=1)
     ctx.rule("R05.m", "update model: Parameters._update interpreted abstractly (entry batching flag x key orders incl. an Event key x a rejected or unknown key at every position x a value identical to the current one, 60 cases): flag restored, flush exactly once iff outermost and after the restore, keys applied in order up to the failing one, Event mode and reset, complete previous-values mapping", floor=1)
+    ctx.rule("R05.t", "trigger model: Parameters.trigger interpreted abstractly (instance/class x names incl. an Event and an unknown name x an event and a watcher queued before x the update dispatches / queues / raises, 96 cases): update runs once, with the trigger flag raised and the parked queues empty, on the current values; on exit the flag is lowered, earlier queue entries survive, no watcher is queued twice; the write-back is inside a _syncing scope", floor=1)
     ctx.not_decided += ["that later dispatch equals that of a fresh object (behavioural equivalence)",
                         "loop-carried partial restores inside a finally (finally blocks are summarised as atomic)"]
     ctx.assumptions += [
@@ -287,6 +288,8 @@ def run(ctx):
 
     from checks import update_model
     update_model.report(ctx, "C05", "R05.m")
+    from checks import trigger_model
+    trigger_model.report(ctx, "C05", "R05.t")
 
 
 def _scope_floor(ctx, temp_scopes):
